@@ -5,6 +5,9 @@ F = "scylla/src/network/connection.rs:"
 PROPERTY = {
     "title": "every response reaches exactly the request it answers on a shared connection",
     "level": "proof",
+    "level_text": "Deductive proof of the safety core over all states: Verus proves on the extracted real ResponseHandlerMap/OrphanageTracker/StreamIdSet code a representation invariant (used bits = waiting ∪ orphaned ids, disjoint, request<->stream bijection) preserved by allocate/orphan/lookup, that allocate never returns an id owned by an unanswered request (waiting or abandoned), and that lookup hands out exactly the handler registered under the response's stream id. Every schedule of one connection is a sequence of these calls (stated reduction).",
+    "level_note": "Trusted: Verus/Z3, vstd HashMap/BTreeSet models; StreamIdSet::allocate's contract is assumed in the Verus unit and discharged separately by Kani on the real function; single-task router discipline; unique request ids. Not covered: socket/coalescing schedules, cross-task cancellation races.",
+    "technique": 'contract-based deductive verification: data-structure invariant + per-operation contracts in Verus on extracted functions',
     "verus": [
         Unit("c02_handler_map", "C02", "c02_handler_map.vrs", desc={
             "free": "bit of stream_id cleared, every other id's bit unchanged (all 32768 ids)",
